@@ -17,7 +17,8 @@ from vp_common import Atom, Ctx, line, run_driver
 PROP = 'C10'
 RULE = ('string frames (1..12 rows, 2..6 non-label columns, label present/absent/at any position) whose values come from '
         'adversarial low-cardinality pools: digit strings that are prefixes/suffixes of one another, empty strings, values made '
-        'of digits and ":" that imitate a length prefix, unicode (combining marks, astral, NBSP), delimiters; column names plain, '
+        'of digits and ":" that imitate a length prefix, unicode (combining marks, astral, NBSP), delimiters; row labels default '
+        'or (1/3) permuted / reversed / offset / string labels (columns must align by position); column names plain, '
         'with spaces/unicode, or containing " AND " (name clashes); orders 0..5 (mostly 2..4), caps 0..C(n,k)+3, the AND_REL '
         '(3mr) variant, 1..3 consecutive calls on the same sampler counter. Non-trivial = a call that appended a column in which '
         'some two rows agree on every constituent and some two rows differ in exactly one constituent; distinct = distinct '
@@ -95,14 +96,27 @@ def gen_case(rng, thorough):
     total = math.comb(m, k) if order > 1 else 0
     cap = rng.choice([0, 1, 2, max(0, total - 1), total, total + 3, rng.randint(0, total + 3), 2 ** 15])
     calls = rng.choice([1, 1, 2, 3])
-    return {'cols': cols, 'label': label, 'order': order, 'cap': cap, 'is3mr': is3mr, 'calls': calls, 'names': kind, 'fam': fam}
+    # row labels: the pipeline's batches carry the default RangeIndex, but the constructor is a library function on ANY frame;
+    # a new column must be aligned with the rows by POSITION whatever the row labels are (sorted / filtered / shuffled frames)
+    index = None
+    ik = rng.choice(['range', 'range', 'perm', 'offset', 'str', 'rev']) if n >= 2 else 'range'
+    if ik == 'perm':
+        index = list(range(n)); rng.shuffle(index)
+    elif ik == 'offset':
+        index = [7 + 3 * i for i in range(n)]
+    elif ik == 'str':
+        index = [f'r{i}' for i in range(n)]; rng.shuffle(index)
+    elif ik == 'rev':
+        index = list(range(n))[::-1]
+    return {'cols': cols, 'label': label, 'order': order, 'cap': cap, 'is3mr': is3mr, 'calls': calls, 'names': kind, 'fam': fam,
+            'index': index}
 
 
 def run_impl(case):
     import pandas as pd
     from outrank import core_ranking as cr
     cr.GLOBAL_PRIOR_COMB_COUNTS.clear()
-    df = pd.DataFrame({nm: vals for nm, vals in case['cols']})
+    df = pd.DataFrame({nm: vals for nm, vals in case['cols']}, index=case.get('index'))
     args = types.SimpleNamespace(label_column=case['label'], interaction_order=case['order'],
                                  combination_number_upper_bound=case['cap'], reference_model_JSON='',
                                  heuristic='MI-numba-3mr' if case['is3mr'] else 'MI-numba-randomized')
@@ -190,7 +204,8 @@ def evaluate(ctx: Ctx, cases, oracle_only=False):
         if amb:
             ctx.count('ambiguous-names(oracle skipped, tie only)')
         mrep, orep = rep[a:a + nm_], rep[a + nm_:a + nm_ + no]
-        small = {k: c[k] for k in ('cols', 'label', 'order', 'cap', 'is3mr', 'calls', 'names', 'fam')}
+        small = {k: c.get(k) for k in ('cols', 'label', 'order', 'cap', 'is3mr', 'calls', 'names', 'fam', 'index')}
+        ctx.count('row-labels:' + ('default' if c.get('index') is None else 'non-default'))
         # ---- oracle on the implementation's output
         j = 0
         for kind, call_no, info in plan:
@@ -274,7 +289,8 @@ def shrink_kernel(case, combo):
             for i in range(len(rows)):
                 for j in range(i):
                     if (vals[i] == vals[j]) != (rows[i] == rows[j]):
-                        two = {**small, 'cols': [[a, [b[j], b[i]]] for a, b in keep]}
+                        idx = case.get('index')
+                        two = {**small, 'cols': [[a, [b[j], b[i]]] for a, b in keep], 'index': [idx[j], idx[i]] if idx else None}
                         o2 = run_impl(two)
                         v2 = o2[0]['out'][len(keep):][0][1]
                         if (v2[0] == v2[1]) != (rows[i] == rows[j]):
@@ -283,7 +299,7 @@ def shrink_kernel(case, combo):
     except Exception:   # noqa: BLE001
         pass
     del out
-    return {k: case[k] for k in ('cols', 'label', 'order', 'cap', 'is3mr', 'calls', 'names', 'fam')}
+    return {k: case.get(k) for k in ('cols', 'label', 'order', 'cap', 'is3mr', 'calls', 'names', 'fam', 'index')}
 
 
 def first_diff(a, b):
@@ -309,6 +325,10 @@ def corpus():
          'order': 2, 'names': 'clash'},
         {**f6, 'cols': [['a', ['1', '11', '1']], ['b', ['11', '1', '11']], ['c', ['0', '0', '1']]], 'is3mr': True, 'order': 3},
         {**f6, 'cols': [['a', ['1', '11', '1']], ['b', ['11', '1', '11']]], 'is3mr': True, 'order': 1},
+        # non-default row labels (seeded change C10-C: label-aligned concat of position-built columns)
+        {**f6, 'cols': [['f_a', ['1', '11', '1']], ['f_b', ['11', '1', '11']], ['f_c', ['x', 'x', 'x']], ['label', ['0', '1', '0']]],
+         'index': [0, 2, 1]},
+        {**f6, 'cols': [['a', ['p', 'q', 'p', 'r']], ['b', ['u', 'u', 'u', 'v']]], 'index': ['r3', 'r0', 'r2', 'r1']},
     ]
 
 
